@@ -292,7 +292,7 @@ def build_mixed(ch, acc, with_ack_groups=True, **kw):
 
 
 ENVELOPE_FAULTS = ['se-count', 'se-id', 'ge-count', 'ge-id', 'iea-count', 'iea-id', 'gs-date', 'gs-time', 'st-dup', 'gs-dup', 'gs-code',
-                   'se-count-alpha', 'st-id-long', 'se-count', 'st-dup', 'st-many-codes', 'st-many-codes', 'st-many-codes', 'drop-trailer', 'st-dup-far', 'gs-dup-far', 'trailer-and-neighbour', 'trailer-and-neighbour', 'envelope-extra-element', 'envelope-extra-element', 'stray-after-trailer', 'stray-after-trailer', 'spelling', 'spelling', 'spelling', 'header-cut-short', 'header-cut-short', 'count-with-components', 'count-with-components', 'empty-group', 'empty-group', 'empty-interchange', 'empty-interchange', 'bad-ta1-after-ge', 'bad-ta1-after-ge']
+                   'se-count-alpha', 'st-id-long', 'se-count', 'st-dup', 'st-many-codes', 'st-many-codes', 'st-many-codes', 'drop-trailer', 'st-dup-far', 'gs-dup-far', 'trailer-and-neighbour', 'trailer-and-neighbour', 'envelope-extra-element', 'envelope-extra-element', 'stray-after-trailer', 'stray-after-trailer', 'spelling', 'spelling', 'spelling', 'header-cut-short', 'header-cut-short', 'count-with-components', 'count-with-components', 'empty-group', 'empty-group', 'empty-interchange', 'empty-interchange', 'bad-ta1-after-ge', 'bad-ta1-after-ge', 'isa-field-width', 'isa-field-width']
 
 
 def envelope_fault(doc, ch, reencoded=False):
@@ -429,6 +429,24 @@ def _envelope_fault(doc, ch, reencoded=False):
         if len(niea.vals) > 1:
             niea.vals[1] = [ctl]
         doc.segs.extend([nisa, niea])
+    elif kind == 'isa-field-width':
+        # fixed-width fields of the last header wider than they should be: the acknowledgement copies sender and receiver from
+        # that header. A later header is read by its separators, so any width will do; on the leading one the line must keep
+        # its 106 characters, so what one field gains another loses (trailing blanks of the id beside it)
+        isa = [i for i, s_ in enumerate(doc.segs) if s_.id == 'ISA']
+        if not isa or len(doc.segs[isa[-1]].vals) < 16:
+            return None
+        v = doc.segs[isa[-1]].vals
+        k = ch.integer(1, 3)
+        a_, b_ = ch.choice([(5, 7), (7, 5)])
+        if isa[-1] == 0:
+            if not v[b_][0].endswith(' ' * k) or len(v[b_][0]) <= k:
+                return None
+            v[b_] = [v[b_][0][:-k]]
+            v[a_] = [v[a_][0].rstrip(' ') + 'W' * (len(v[a_][0]) - len(v[a_][0].rstrip(' ')) + k)]
+        else:
+            which = ch.choice([a_, a_, 4, 6, 14])
+            v[which] = [v[which][0].rstrip(' ') + 'W' * (len(v[which][0]) - len(v[which][0].rstrip(' ')) + k)]
     elif kind == 'trailer-and-neighbour':
         # an element error on a trailer and one at the same element position of the segment right before it
         c = [i for i, s_ in enumerate(doc.segs) if s_.id == 'SE' and i > 0 and doc.segs[i - 1].id not in ('ST', 'ISA', 'GS')]
@@ -528,7 +546,33 @@ def tag_structural(case, out, untagged=('R1:reader-error-lost',)):
             out.failures = [(b_ if b_.startswith(untagged) else b_ + '[%s]' % tag, d_) for b_, d_ in out.failures]
             out.classes.append(tag)
             break           # one tag: the first that applies
+    else:
+        if out.failures and _orphan_trailer(case.get('text')):
+            # a group, set or interchange trailer while no header of its kind is open (whatever produced it)
+            out.failures = [(b_ if b_.startswith(untagged) else b_ + '[orphan-trailer]', d_) for b_, d_ in out.failures]
+            out.classes.append('orphan-trailer')
     return out
+
+
+def _orphan_trailer(text):
+    from .. import x12ref
+    if not text:
+        return False
+    try:
+        _, segs = x12ref.tokenize(text)
+    except Exception:
+        return False
+    open_ = []
+    for s_ in segs:
+        if s_.id in ('ISA', 'GS', 'ST'):
+            open_.append(s_.id)
+        elif s_.id in ('SE', 'GE', 'IEA'):
+            want = {'SE': 'ST', 'GE': 'GS', 'IEA': 'ISA'}[s_.id]
+            if want not in open_:
+                return True
+            while open_.pop() != want:
+                pass
+    return False
 
 
 def meta_of(doc, exps):
